@@ -195,6 +195,12 @@ def historical_job(seed):
     base = case["baseline"]
     thr = 90
     cur = pd.DataFrame([{"postal_code": b["postal_code"], "geographic_unit_fips": b["geographic_unit_fips"], "percent_expected_vote": rng.choice([0, 40, 89, 90, 100])} for b in base])
+    # the order (and the row labels) of the live feed are the caller's business: shuffled, labels kept, for every other seed
+    pev_by = dict(zip(cur["geographic_unit_fips"], cur["percent_expected_vote"]))
+    if seed % 2 == 1:
+        cur = cur.sample(frac=1.0, random_state=seed % 1000)
+    elif seed % 4 == 2:
+        cur = cur.sort_values("percent_expected_vote", ascending=False)
     hid = "2095-11-03_USA_G"
     wd = os.path.join(core.BUILD, "c10hist", str(seed))
     shutil.rmtree(wd, ignore_errors=True)
@@ -205,7 +211,8 @@ def historical_job(seed):
         os.chdir(wd)
         for variant in (0, 1):
             rows = []
-            for b, pev in zip(base, cur["percent_expected_vote"]):
+            for b in base:
+                pev = pev_by[b["geographic_unit_fips"]]
                 r = dict(b)
                 mult = 1 if (variant == 0 or pev >= thr) else rng.randint(2, 9)
                 r["results_dem"] = b["baseline_dem"] * mult + (0 if mult == 1 else 13)
@@ -256,7 +263,7 @@ def run(chk):
                   sample={"estimator": pi, "perturbed": kind, "unit": o.get("uid"), "both_runs_completed": o["ok"]})
         for f in o["fails"]:
             chk.violation(f["what"], {"kind": "c10", "job": o["job"]}, {"kind": f["kind"], "estimator": pi, "perturbed": kind})
-    hj = core.pmap(historical_job, [rng.randint(0, 2**31) for _ in range(3 if chk.tier == "quick" else 30)])
+    hj = core.pmap(historical_job, [rng.randint(0, 2**31) * 4 + k % 4 for k in range(6 if chk.tier == "quick" else 40)])
     for o in hj:
         chk.count({"historical": True, "same": o.get("same")}, nontrivial="same" in o, sample={"historical_frame_rows": o.get("rows"), "independent_of_hidden_results": o.get("same")})
         if "exc" in o:
